@@ -252,6 +252,28 @@ def _method_calls(cfg, rd, var, names):
     return out
 
 
+def _column_gather(t):
+    """a sub-term `X[rows, cols]` whose column part is not the full
+    slice, anywhere in t; None if there is none"""
+    full = ('slice', ('const', 'None'), ('const', 'None'),
+            ('const', 'None'))
+    stack = [t]
+    seen = 0
+    while stack and seen < 20000:
+        x = stack.pop()
+        seen += 1
+        if not isinstance(x, (tuple, frozenset)):
+            continue
+        if isinstance(x, tuple) and len(x) == 3 and x[0] == 'sub' \
+                and isinstance(x[2], tuple) and x[2] and x[2][0] == 'tuple' \
+                and len(x[2][1]) == 2 and x[2][1][1] != full:
+            return x[2][1][1]
+        for y in x:
+            if isinstance(y, (tuple, frozenset)):
+                stack.append(y)
+    return None
+
+
 def check_typestate(ctx):
     db = ctx.db
     rule = 'R-TYPESTATE/normalise-before-select'
@@ -269,6 +291,31 @@ def check_typestate(ctx):
                 vars_.add(d.name)
         if not vars_:
             raise AnalysisError(f'{q}: no CellByGeneMatrix variable')
+        # the matrix that is normalised holds every gene of the cell: the
+        # array handed to the constructor is not cut by column first (the
+        # CPM denominator is the sum over all genes of the file; the
+        # class's own guard only knows about its own down-selection)
+        for n_ in cfg.nodes:
+            if n_.id not in rd.live:
+                continue
+            for c_ in cfg.calls_in(n_):
+                if unparse(c_.func) != 'CellByGeneMatrix':
+                    continue
+                for kw in c_.keywords:
+                    if kw.arg != 'data':
+                        continue
+                    t_ = ex.expand(kw.value, n_.id)
+                    cut = _column_gather(t_)
+                    ctx.ob('R-TYPESTATE/all-genes-normalised',
+                           f'{fi.qual}:CellByGeneMatrix(data=)',
+                           fi.loc(c_), cut is None,
+                           'the array that is normalised keeps every gene '
+                           'column of the chunk' if cut is None else
+                           'the array handed to CellByGeneMatrix has '
+                           f'already lost columns ({fmt_term(cut)[:60]}): '
+                           'raw counts are converted to CPM over the '
+                           'remaining genes only, so a raw query and its '
+                           'log2(CPM+1) form no longer map alike')
         for v in sorted(vars_):
             conv = _method_calls(cfg, rd, v, ('to_log2CPM_in_place',
                                               'to_log2CPM'))
